@@ -22,7 +22,7 @@ Inductive failure : Type := FailNone | FailRead | FailSetBaud | FailWrite | Fail
 
 Record sport : Type := {
   sp_settings : settings;          (* what the device is currently set to *)
-  sp_timeout : option N;           (* read timeout in ms, None = never set *)
+  sp_timeout : option N;           (* read timeout in nanoseconds (a Duration), None = never set *)
   sp_fail : failure
 }.
 
@@ -33,7 +33,7 @@ Definition wanted : settings :=
      s_flow := FlowNone |}.
 
 (* configure_port *)
-Definition configure_port (p : sport) (timeout_ms : N) : result perr sport :=
+Definition configure_port (p : sport) (timeout_ns : N) : result perr sport :=
   match sp_fail p with
   | FailRead => Err (PErr FailRead)                         (* read_settings()? *)
   | FailSetBaud => Err (PErr FailSetBaud)                   (* settings.set_baud_rate(..)? *)
@@ -45,11 +45,11 @@ Definition configure_port (p : sport) (timeout_ms : N) : result perr sport :=
                    sp_timeout := sp_timeout p; sp_fail := sp_fail p |} in
       match sp_fail p with
       | FailTimeout => Err (PErr FailTimeout)               (* set_timeout()? *)
-      | _ => Ok {| sp_settings := sp_settings p1; sp_timeout := Some timeout_ms;
+      | _ => Ok {| sp_settings := sp_settings p1; sp_timeout := Some timeout_ns;
                    sp_fail := sp_fail p |}
       end
   end.
 
 (* SerialSignBus::try_new: Duration::from_secs(5); Odk::try_new: Duration::from_secs(10) *)
-Definition serial_bus_try_new (p : sport) : result perr sport := configure_port p 5000.
-Definition odk_try_new (p : sport) : result perr sport := configure_port p 10000.
+Definition serial_bus_try_new (p : sport) : result perr sport := configure_port p 5000000000.
+Definition odk_try_new (p : sport) : result perr sport := configure_port p 10000000000.
